@@ -46,7 +46,7 @@ int kindFromName(const char* s);
 
 enum { PH_SETUP = 0, PH_BODY = 1, PH_TEARDOWN = 2, PH_PRE = 3, PH_POST = 4, PH_PROC = 5 };
 enum { N_SLOTS = 48, N_TARGETS = 8, N_VALUES = 6, MAX_SET = 32 };
-enum { N_PASS_KINDS = 14, N_FAILCPP_KINDS = 8, N_FAILC_KINDS = 4 };
+enum { N_PASS_KINDS = 14, N_FAILCPP_KINDS = 24, N_FAILC_KINDS = 20 };
 
 inline bool isTerminating(int k) { return k == K_FAIL_CPP || k == K_FAIL_C || k == K_THROW_STD || k == K_THROW_FOREIGN; }
 
